@@ -883,6 +883,11 @@ fn extend_input(pb: &Program, ina: &State) -> State {
 }
 
 pub fn judge_pair(kind: &str, idx: u64, rk: RK, pa: &Program, pb: &Program, tag: &str, sites: usize) -> CaseResult {
+    judge_pair_ex(kind, idx, rk, pa, pb, tag, sites, &[])
+}
+
+/// `extra`: additional input states (for spelling A; extended to B), judged after the generated ones
+pub fn judge_pair_ex(kind: &str, idx: u64, rk: RK, pa: &Program, pb: &Program, tag: &str, sites: usize, extra: &[State]) -> CaseResult {
     let sa = print_program(pa);
     let sb = print_program(pb);
     let mut res = CaseResult::new("", crate::util::hash_str(&sa) ^ crate::util::hash_str(&sb).rotate_left(1));
@@ -918,8 +923,8 @@ pub fn judge_pair(kind: &str, idx: u64, rk: RK, pa: &Program, pb: &Program, tag:
         if la != lb {
             res.nontrivial = true;
         }
-        for k in 0..4u64 {
-            let ina = gen_input(pa, tag, idx, k);
+        for k in 0..(4 + extra.len() as u64) {
+            let ina = if k < 4 { gen_input(pa, tag, idx, k) } else { extra[(k - 4) as usize].clone() };
             let inb = extend_input(pb, &ina);
             let (ra, rb) = match (reference(pa, &ina, 20_000), reference(pb, &inb, 20_000)) {
                 (Ok(a), Ok(b)) => (a, b),
@@ -990,6 +995,206 @@ pub fn judge_pair(kind: &str, idx: u64, rk: RK, pa: &Program, pb: &Program, tag:
         res.sample = Some(json!({"kind": kind, "idx": idx, "rewrite": rk.name(), "original": sa, "rewritten": sb}));
     }
     res
+}
+
+// ------------------------------------------------------------------ enumerated core
+// A statement that writes a variable or a register, in two spellings, followed by a test of what
+// it wrote: every target kind x statement form x test form, with inputs at the byte boundaries.
+
+const CORE_TARGETS: usize = 4; // c (char), X, Y, s (short)
+const CORE_FORMS: usize = 16;
+const CORE_TESTS: usize = 6;
+const CORE_SPECIALS: usize = 10;
+
+pub fn core_len() -> u64 {
+    (CORE_TARGETS * CORE_FORMS * CORE_TESTS + CORE_SPECIALS) as u64
+}
+
+fn core_base() -> Program {
+    let mut p = Program::default();
+    let g = |name: &str, t: Ty| VarDecl { name: name.into(), kind: VarKind::Scalar(t), mem: MemClass::Zp, scope: Scope::Global };
+    p.vars.push(g("c", Ty::U8)); // 0
+    p.vars.push(g("d", Ty::U8)); // 1
+    p.vars.push(g("r", Ty::U8)); // 2
+    p.vars.push(g("s", Ty::U16)); // 3
+    p.vars.push(g("t", Ty::U16)); // 4
+    p.vars.push(g("n", Ty::U8)); // 5
+    p
+}
+
+fn core_main(mut p: Program, body: Vec<Stmt>) -> Program {
+    p.funcs.push(Func { name: "main".into(), ret: None, params: vec![], body, inline: false, interrupt: false, proto_first: false });
+    p
+}
+
+fn core_pair(idx: u64) -> Option<(RK, Program, Program, LV)> {
+    let lvv = |v: usize| Expr::Lv(LV::Var(v));
+    let set = |v: usize, k: i32| Stmt::Expr(Expr::Assign(LV::Var(v), Box::new(Expr::Num(k))));
+    let n_grid = (CORE_TARGETS * CORE_FORMS * CORE_TESTS) as u64;
+    if idx >= n_grid {
+        // hand-written pairs
+        let k = idx - n_grid;
+        let incr = |v: usize| Stmt::Expr(Expr::IncDec { lv: LV::Var(v), post: true, inc: true });
+        let decr = |l: LV| Expr::IncDec { lv: l, post: true, inc: false };
+        let (a, b, rk): (Vec<Stmt>, Vec<Stmt>, RK) = match k {
+            0 | 1 => {
+                // for (s = K; s; s--) n++;   <->   s = K; while (s) { n++; s--; }
+                let kk = if k == 0 { 3 } else { 300 };
+                let init = Expr::Assign(LV::Var(3), Box::new(Expr::Num(kk)));
+                (
+                    vec![set(5, 0), Stmt::For(Some(init.clone()), Some(lvv(3)), Some(decr(LV::Var(3))), Box::new(Stmt::Block(vec![incr(5)])))],
+                    vec![set(5, 0), Stmt::Expr(init), Stmt::While(lvv(3), Box::new(Stmt::Block(vec![incr(5), Stmt::Expr(decr(LV::Var(3)))])))],
+                    RK::ForToWhile,
+                )
+            }
+            2 | 3 => {
+                // for (c = d++ / d--; c != 0; c--) r += 2;   <->   the while spelling (d small)
+                let init = Expr::Assign(LV::Var(0), Box::new(Expr::IncDec { lv: LV::Var(1), post: true, inc: k == 2 }));
+                let cond = Expr::Bin(BinOp::Ne, Box::new(lvv(0)), Box::new(Expr::Num(0)));
+                let body = Stmt::Expr(Expr::OpAssign(BinOp::Add, LV::Var(2), Box::new(Expr::Num(2))));
+                let mask = Stmt::Expr(Expr::OpAssign(BinOp::And, LV::Var(1), Box::new(Expr::Num(7))));
+                (
+                    vec![mask.clone(), Stmt::For(Some(init.clone()), Some(cond.clone()), Some(decr(LV::Var(0))), Box::new(Stmt::Block(vec![body.clone()])))],
+                    vec![mask, Stmt::Expr(init), Stmt::While(cond, Box::new(Stmt::Block(vec![body, Stmt::Expr(decr(LV::Var(0)))])))],
+                    RK::ForToWhile,
+                )
+            }
+            4 | 5 | 6 | 7 => {
+                // reg = 2; f(); if (reg == 2) r = 1; else r = 2;   <->   f's body in place (f changes the register)
+                let reg = if k % 2 == 0 { LV::X } else { LV::Y };
+                let fbody = vec![
+                    Stmt::Expr(Expr::OpAssign(BinOp::Add, LV::Var(1), Box::new(Expr::Num(3)))),
+                    if k < 6 { Stmt::Expr(Expr::IncDec { lv: reg.clone(), post: true, inc: true }) } else { Stmt::Expr(Expr::Assign(reg.clone(), Box::new(lvv(0)))) },
+                ];
+                let test = Stmt::If(Expr::Bin(BinOp::Eq, Box::new(Expr::Lv(reg.clone())), Box::new(Expr::Num(2))), Box::new(set(2, 1)), Some(Box::new(set(2, 2))));
+                let pre = Stmt::Expr(Expr::Assign(reg.clone(), Box::new(Expr::Num(2))));
+                let mut pa = core_base();
+                pa.funcs.push(Func { name: "f".into(), ret: None, params: vec![], body: fbody.clone(), inline: false, interrupt: false, proto_first: false });
+                let pa = core_main(pa, vec![pre.clone(), Stmt::Expr(Expr::Call(0, vec![])), test.clone()]);
+                let mut pb = core_base();
+                pb.funcs.push(Func { name: "f".into(), ret: None, params: vec![], body: fbody.clone(), inline: false, interrupt: false, proto_first: false });
+                let pb = core_main(pb, vec![pre, Stmt::Block(fbody), test]);
+                return Some((RK::CallInline, pa, pb, reg));
+            }
+            _ => {
+                // a loop with a switch whose arm continues   <->   the if chain
+                let arms = vec![(vec![1], vec![Stmt::Continue]), (vec![2], vec![Stmt::Expr(Expr::OpAssign(BinOp::Add, LV::Var(2), Box::new(Expr::Num(10)))), Stmt::Break])];
+                let sw = Stmt::Switch(lvv(0), arms, None);
+                let chain = Stmt::If(
+                    Expr::Bin(BinOp::Eq, Box::new(lvv(0)), Box::new(Expr::Num(1))),
+                    Box::new(Stmt::Block(vec![Stmt::Continue])),
+                    Some(Box::new(Stmt::Block(vec![Stmt::If(
+                        Expr::Bin(BinOp::Eq, Box::new(lvv(0)), Box::new(Expr::Num(2))),
+                        Box::new(Stmt::Block(vec![Stmt::Expr(Expr::OpAssign(BinOp::Add, LV::Var(2), Box::new(Expr::Num(10))))])),
+                        None,
+                    )]))),
+                );
+                let mk = |inner: Stmt| {
+                    vec![
+                        set(2, 0),
+                        Stmt::For(
+                            Some(Expr::Assign(LV::Var(0), Box::new(Expr::Num(0)))),
+                            Some(Expr::Bin(BinOp::Ne, Box::new(lvv(0)), Box::new(Expr::Num(4)))),
+                            Some(Expr::IncDec { lv: LV::Var(0), post: true, inc: true }),
+                            Box::new(Stmt::Block(vec![inner, incr(2)])),
+                        ),
+                    ]
+                };
+                (mk(sw), mk(chain), RK::SwitchToIf)
+            }
+        };
+        return Some((rk, core_main(core_base(), a), core_main(core_base(), b), LV::Var(3)));
+    }
+    let ti = (idx % CORE_TESTS as u64) as usize;
+    let fi = ((idx / CORE_TESTS as u64) % CORE_FORMS as u64) as usize;
+    let vi = (idx / (CORE_TESTS * CORE_FORMS) as u64) as usize;
+    let (l, wide16) = match vi {
+        0 => (LV::Var(0), false),
+        1 => (LV::X, false),
+        2 => (LV::Y, false),
+        _ => (LV::Var(3), true),
+    };
+    let v = Expr::Lv(l.clone());
+    let kk = [1, 128, 255, 2, 0x100, 0x101][(idx % 6) as usize];
+    let kk = if wide16 { kk } else { kk & 0xff };
+    let (a, b, rk): (Stmt, Stmt, RK) = match fi {
+        0..=3 => {
+            let inc = fi % 2 == 0;
+            let post = fi < 2;
+            (
+                Stmt::Expr(Expr::IncDec { lv: l.clone(), post, inc }),
+                Stmt::Expr(Expr::OpAssign(if inc { BinOp::Add } else { BinOp::Sub }, l.clone(), Box::new(Expr::Num(1)))),
+                RK::IncToAdd,
+            )
+        }
+        4..=13 => {
+            let op = [BinOp::Add, BinOp::Sub, BinOp::And, BinOp::Or, BinOp::Xor][(fi - 4) / 2];
+            let e = if (fi - 4) % 2 == 0 { Expr::Num([1, 3, 0x7f, 0x80, 0xff][(idx % 5) as usize]) } else { lvv(1) };
+            (
+                Stmt::Expr(Expr::OpAssign(op, l.clone(), Box::new(e.clone()))),
+                Stmt::Expr(Expr::Assign(l.clone(), Box::new(Expr::Bin(op, Box::new(v.clone()), Box::new(e))))),
+                RK::OpToAssign,
+            )
+        }
+        _ => {
+            if wide16 {
+                return None; // recorded family wide_shift_assign
+            }
+            let op = if fi == 14 { BinOp::Shl } else { BinOp::Shr };
+            (
+                Stmt::Expr(Expr::OpAssign(op, l.clone(), Box::new(Expr::Num(1)))),
+                Stmt::Expr(Expr::Assign(l.clone(), Box::new(Expr::Bin(op, Box::new(v.clone()), Box::new(Expr::Num(1)))))),
+                RK::OpToAssign,
+            )
+        }
+    };
+    let cond = match ti {
+        0 => v.clone(),
+        1 => Expr::Un(UnOp::Not, Box::new(v.clone())),
+        2 => Expr::Bin(BinOp::Eq, Box::new(v.clone()), Box::new(Expr::Num(kk))),
+        3 => Expr::Bin(BinOp::Ne, Box::new(v.clone()), Box::new(Expr::Num(kk))),
+        4 => {
+            if wide16 {
+                Expr::Bin(BinOp::Lt, Box::new(v.clone()), Box::new(Expr::Num(kk.max(1))))
+            } else {
+                Expr::Bin(BinOp::Lt, Box::new(v.clone()), Box::new(Expr::Num(kk.max(1))))
+            }
+        }
+        _ => Expr::Bin(BinOp::Eq, Box::new(v.clone()), Box::new(lvv(if wide16 { 4 } else { 1 }))),
+    };
+    let test = Stmt::If(cond, Box::new(set(2, 1)), Some(Box::new(set(2, 2))));
+    Some((rk, core_main(core_base(), vec![a, test.clone()]), core_main(core_base(), vec![b, test]), l))
+}
+
+fn core_case(kind: &str, idx: u64) -> CaseResult {
+    let (rk, pa, pb, target) = match core_pair(idx) {
+        Some(x) => x,
+        None => return CaseResult::new("core combination inside a recorded family (skipped)", idx),
+    };
+    // inputs at the byte boundaries of the target
+    let base = gen_input(&pa, "C15core", idx, 1);
+    let mut extra = Vec::new();
+    let vals: &[i64] = match &target {
+        LV::Var(3) => &[0, 1, 2, 0xff, 0x100, 0x101, 0x1ff, 0x200, 0x7fff, 0x8000, 0xff00, 0xffff],
+        _ => &[0, 1, 2, 3, 127, 128, 129, 254, 255],
+    };
+    for (i, v) in vals.iter().enumerate() {
+        let mut st = base.clone();
+        match &target {
+            LV::Var(x) => st.vals[*x][0] = *v,
+            LV::X => st.x = *v,
+            LV::Y => st.y = *v,
+            _ => {}
+        }
+        // the second operand / comparison partner at a boundary too
+        st.vals[1][0] = [0, 1, 127, 128, 255, 3][i % 6];
+        st.vals[4][0] = [0, 1, 0x100, 0x101, 0xffff, 0x00ff][i % 6];
+        st.vals[0][0] = if matches!(target, LV::Var(0)) { st.vals[0][0] } else { [0, 1, 2, 3][i % 4] };
+        extra.push(st);
+    }
+    let mut r = judge_pair_ex(kind, idx, rk, &pa, &pb, "C15core", 1, &extra);
+    r.count("enumerated core pairs", 1);
+    r
 }
 
 fn pair_case(kind: &str, idx: u64) -> CaseResult {
@@ -1118,12 +1323,14 @@ impl Monitor for C15 {
             Tier::Quick => 60_000,
             Tier::Thorough => 600_000,
         };
+        v.extend(split_chunks("core", 0, core_len(), core_len(), 20));
         v.extend(split_chunks("pair", seed_offset(seed, "C15p", 600_000), n, 600_000, 150));
         v
     }
     fn run_case(&self, kind: &str, idx: u64) -> CaseResult {
         match kind {
             "pin" => pin_case(idx),
+            "core" => core_case(kind, idx),
             _ => pair_case(kind, idx),
         }
     }
